@@ -352,3 +352,30 @@ reg('C16', module='c16', level='exploration',
                        'verdicts_compared': 9},
              'thorough': {'script_compared': 5000000,
                           'solver_steps_compared': 5000000}})
+
+reg('C20', module='c20', level='exploration',
+    technique=('runtime monitoring: per-node callback counts observed from '
+               'outside (wrapped walker function tables, sys.monitoring '
+               'PY_START counts for printers/parser, create_node counts) on '
+               'diamond-chain and deep-chain formula families'),
+    rule=('for each of 30 nestable operator families x 22 procedures: two '
+          'diamond chains (tree size exponential, 40/80 levels quick, '
+          '100/200 thorough) and one left-deep chain (depth 3000 quick, '
+          '20000 thorough) under the default recursion limit; distinct = '
+          '(procedure, family)'),
+    level_text=('the number of per-node callbacks must stay below 4 x '
+                '(distinct nodes) and grow at most 2.5x when the DAG '
+                'doubles; every procedure must complete on a chain nested '
+                'deeper than the recursion limit. Counts are measured, '
+                'wall-clock time is never a verdict.'),
+    level_note=('callbacks are counted by wrapping walker tables from the '
+                'harness; a zero count is reported as a failed monitor'),
+    assumptions=['arithmetic families interpose an ITE so that the '
+                 'simplifier/distributor output itself stays linear (sum '
+                 'flattening without coefficient merging has exponential '
+                 'output size by construction)'],
+    shards={'quick': 16, 'thorough': 16},
+    require={'quick': {'diamond_measurements': 400, 'deep_chains_ok': 300,
+                       'callbacks_counted': 100000},
+             'thorough': {'diamond_measurements': 400,
+                          'deep_chains_ok': 300}})
